@@ -80,11 +80,23 @@ fn sub_table(symbols: &str) -> &'static PeriodicTable {
     if let Some(t) = cache.get(symbols) {
         return t;
     }
+    // `…!n`: a table as a caller would build it who reads the field `neutrons` as the neutron COUNT (the doc comment says so):
+    // the isotopes stay under their nucleon numbers, `neutrons` holds another number.  An isotope is identified by its key.
+    let (list, recount) = match symbols.strip_suffix("!n") {
+        Some(l) => (l, true),
+        None => (symbols, false),
+    };
     let mut t = PeriodicTable::new();
-    if symbols != "-" {
-        for sym in symbols.split(',') {
+    if list != "-" {
+        for sym in list.split(',') {
             if let Some(e) = PERIODIC_TABLE.get(sym) {
-                t.add(e.clone());
+                let mut e = e.clone();
+                if recount {
+                    for (k, iso) in e.isotopes.iter_mut() {
+                        iso.neutrons = k / 2 + 1;
+                    }
+                }
+                t.add(e);
             }
         }
     }
@@ -157,10 +169,31 @@ pub fn display(form: &str, pairs: &str) -> String {
     };
     let mut back = parse_all(&text);
     // "parsing the text back yields an EQUAL composition": `==` on the same type, not just the same entries
+    // ... whatever has been asked of the two values before (both with their masses computed and memoised: the parsed-back
+    // value holds its entries in canonical order, the original in insertion order, so the two f64 sums may differ in the last
+    // place — equality is about keys and counts)
     let eq_back = guarded(|| match &reg {
-        Reg::Vec(c) => ChemicalCompositionVec::from_str(&text).map(|p| p == *c).unwrap_or(false),
-        Reg::Map(c) => ChemicalCompositionMap::from_str(&text).map(|p| p == *c).unwrap_or(false),
-        Reg::Enum(c) => ChemicalComposition::from_str(&text).map(|p| p == *c && *c == p).unwrap_or(false),
+        Reg::Vec(c) => ChemicalCompositionVec::from_str(&text)
+            .map(|p| {
+                let (mut a, mut b) = (p.clone(), c.clone());
+                let _ = (a.fmass(), b.fmass());
+                p == *c && *c == p && a == b && b == a
+            })
+            .unwrap_or(false),
+        Reg::Map(c) => ChemicalCompositionMap::from_str(&text)
+            .map(|p| {
+                let (mut a, mut b) = (p.clone(), c.clone());
+                let _ = (a.fmass(), b.fmass());
+                p == *c && *c == p && a == b && b == a
+            })
+            .unwrap_or(false),
+        Reg::Enum(c) => ChemicalComposition::from_str(&text)
+            .map(|p| {
+                let (mut a, mut b) = (p.clone(), c.clone());
+                let _ = (a.fmass(), b.fmass());
+                p == *c && *c == p && a == b && b == a
+            })
+            .unwrap_or(false),
     });
     if eq_back != Some(true) && back.starts_with("ok") {
         back = format!("not-equal-to-original {back}");
